@@ -1,9 +1,27 @@
 HOOK_COMMITS = []
 ENGINES = [
-    {"name": "kernel", "path": "mc/kernel.py", "serves_properties": ["C01", "C02", "C20", "C03", "C04", "C05", "C09", "C13", "C15", "C16", "C17", "C18", "C19"], "kind_free_text": "hand-written bounded exhaustive explorer: units enumerate a finite space (alphabet x bound), sharded over a fork pool; recorder counts evaluations/distinct cases/states/transitions/witnesses; replay files; known-findings triage"},
+    {"name": "kernel", "path": "mc/kernel.py", "serves_properties": ["C01", "C02", "C06", "C12", "C14", "C20", "C03", "C04", "C05", "C09", "C13", "C15", "C16", "C17", "C18", "C19"], "kind_free_text": "hand-written bounded exhaustive explorer: units enumerate a finite space (alphabet x bound), sharded over a fork pool; recorder counts evaluations/distinct cases/states/transitions/witnesses; replay files; known-findings triage"},
 ]
 NOT_YET = {}
 CHECKS = {
+    "C06": {
+        "level": "model_checking",
+        "technique": "TLA+ model of the packing control loop checked exhaustively by TLC, with every path of the state graph replayed against the real BaseTTXConverter.compile (conformance); plus exhaustive size-grid / configuration-lattice enumeration of generated and corpus layout tables read back through HarfBuzz",
+        "text": "(a) models/Repacker.tla states the PURE_FT / HB_FT / FT_FALLBACK machine; TLC enumerates all states for an answer budget of 6 (thorough 9) and checks the safety invariants; every maximal path of the dumped graph is replayed against the real compile loop with stubbed packers and must produce the same call log and result. (b) Ten families of generated tables with size knobs just below/at/above each 64k offset boundary x repacker {off, auto, required} x extension x compaction levels: every rule put in is read back through HarfBuzz, a failed packing must be OTLOffsetOverflowError, a second compile must shape identically. (c) every corpus GSUB/GPOS/GDEF x configuration lattice shapes all glyph sequences up to length 2-3 identically to the reference configuration.",
+        "note": "Trusted: TLC 1.8, HarfBuzz 12.1 (shaper and hb.repack). The HB_FT <-> FT_FALLBACK cycle under an always-failing repacker is recorded as an observation (the property does not speak of termination).",
+    },
+    "C12": {
+        "level": "exploration",
+        "technique": "exhaustive enumeration of Type 2 programs from the operator grammar (zero/non-zero argument patterns, every operator form, blends, hints) and of whole-font transforms on all corpus CFF/CFF2 tables, against an independent TN5177 reference interpreter",
+        "text": "All command sequences of rmoveto + <= 3 (thorough 4) path commands over every zero-pattern the specialiser inspects x width x preserveTopology x maxstack x generalizeFirst; every operator in every argument-count form, hint set-ups and blends; desubroutinize / remove_hints / remove_unused_subroutines / subset options / CFF<->CFF2 conversion / optimizeWidths on every corpus CFF table and on generated fonts with nested subroutines. The drawn path (reference interpreter oracles/t2ref.py, T2CharString.draw, and HarfBuzz on saved fonts), the advance width, the operand stack depth and the operator arities are compared before and after.",
+        "note": "Trusted: oracles/t2ref.py (written from TN5177, shares no code with fontTools). Arithmetic/storage operators are outside the grammar.",
+    },
+    "C14": {
+        "level": "model_checking",
+        "technique": "breadth-first exploration of pen-protocol call prefixes (segment-pen and point-pen grammars over a small point lattice), every complete glyph fed to every adapter on a fresh instance, against an independent interpretation of the pen protocols",
+        "text": "States are call prefixes of the pen grammars (open/closed contours, lines, cubic and quadratic segments with 0..3+ off-curves, off-curve-only contours, duplicate and coincident points, single points, components); each complete glyph goes through about 35 adapter configurations (segment<->point, recording, transform, reverse, rounding, filter, explicit closing line, TTGlyph(Point)Pen, T2CharStringPen, SVG path round trip, bounds/area pens, decomposing) and, in thorough, all ordered pairs of 11 stages. Oracles: exact call equality or the documented image, canonical geometry, exact Fraction area and its negation under reversal, independently computed extrema.",
+        "note": "Trusted: oracles/c14_model.py (imports no fontTools), oracles/geom.py. Cu2Qu/Qu2Cu pens are C13's. The specializer's merging of back-tracking h/v lines is a recorded known finding.",
+    },
     "C20": {
         "level": "fault_enumeration",
         "technique": "exhaustive fault enumeration: every truncation length, every header/directory byte x replacement value, every table x damage pattern, every attribute site x canary, every table compile failure point during save",
